@@ -1668,6 +1668,20 @@ class GenerativeFunctionClosure(Generic[R], GenerativeFunction[R]):
         else:
             return self.gen_fn.edit(key, trace, edit_request, full_args)
 
+    def update(
+        self,
+        key: PRNGKey,
+        trace: Trace[R],
+        constraint: ChoiceMap,
+        argdiffs: Argdiffs,
+    ) -> tuple[Trace[R], Weight, Retdiff[R], ChoiceMap]:
+        # The inherited `update` dispatches on the trace's generative function
+        # (the wrapped one), which expects the stored arguments too: go through
+        # this closure's `edit`, which prepends them.
+        tr, w, rd, bwd = self.edit(key, trace, Update(constraint), argdiffs)
+        assert isinstance(bwd, Update), type(bwd)
+        return tr, w, rd, bwd.constraint
+
     def assess(
         self,
         sample: ChoiceMap,
